@@ -134,6 +134,13 @@ Apply1(hh, t, ev) ==
     [] k = "spawn"    -> ObsSpawn(hh, b)
     [] k = "exit"     -> ObsExit(hh, t, IF IsPool(t) THEN 1 ELSE 0, b)
     [] k = "setmax"   -> ObsSetMax(hh, a)
+    [] k = "sent"     -> ObsSent(hh, a, b)
+    [] k = "in_closed" -> ObsInClosed(hh, a)
+    [] k = "proc_start" -> ObsProcStart(hh, t, a, b)
+    [] k = "proc_end" -> ObsProcEnd(hh, t, a, b)
+    [] k = "out"      -> ObsOut(hh, a, b)
+    [] k = "out_end"  -> ObsOutEnd(hh, a)
+    [] k \in {"in_end", "in_dropped", "closure_dropped", "stream_dropped"} -> PFlag(hh, a, k)
     [] OTHER          -> hh
 RECURSIVE ApplyAll(_, _, _, _)
 ApplyAll(hh, t, evs, i) == IF i > Len(evs) THEN hh ELSE ApplyAll(Apply1(hh, t, evs[i]), t, evs, i + 1)
@@ -158,6 +165,7 @@ CONSTANTS
   NObj <- MC_NObj
   NGate <- MC_NGate
   Pool0 <- MC_Pool0
+  NPipe <- MC_NPipe
 CONSTRAINT Collect
 POSTCONDITION Report
 CHECK_DEADLOCK FALSE
